@@ -57,9 +57,12 @@ class FnScan:
         self.captures = set()      # (attribute, parameter): attribute of self initialised as an alias of a parameter
         self.global_rng = set()    # np.random.<fn> names
         self.seeded = False
+        self.rng_args = []         # source text of the argument of every default_rng(...) call
+        self.seed_forward = []     # (callee, source text of the actual argument bound to the callee's `seed` parameter)
         self.returns = set()       # parameters the returned value may be (a view of)
         self.calls = []            # (callee bare name, [(position or keyword, roots)], receiver roots)
         self.state0 = {p: {p} for p in self.params}
+        self.outer = {}            # (nested functions) aliases of the enclosing function's variables, filled by scan()
         self.locals = set(self.params)
         for n in ast.walk(node):
             if isinstance(n, ast.Name) and isinstance(n.ctx, ast.Store): self.locals.add(n.id)
@@ -85,6 +88,15 @@ class FnScan:
             n = _callname(e)
             if n in self.cached: return {'cache:' + n}
             fsrc0 = ast.unparse(e.func)
+            if isinstance(e.func, ast.Name) and n in ('enumerate', 'zip', 'reversed', 'list', 'tuple', 'sorted', 'iter', 'next', 'getattr', 'vars'):
+                out = set()                        # the elements (or the attribute) are the originals
+                for a in e.args: out |= self.roots(a, st)
+                return out
+            if isinstance(e.func, ast.Attribute) and n in ('values', 'items', 'get', 'copy_shallow') and not e.keywords:
+                return self.roots(e.func.value, st)            # d.values(): the stored objects themselves
+            if n in ('require', 'nan_to_num') and fsrc0.startswith(('np.', 'numpy.')) and e.args:
+                if n == 'require' or any(kw.arg == 'copy' and isinstance(kw.value, ast.Constant) and kw.value.value is False for kw in e.keywords):
+                    return self.roots(e.args[0], st)
             if fsrc0 in ('copy.copy', 'copy') and e.args: return self.roots(e.args[0], st)     # shallow copy shares every attribute
             if n in COPY_FALSE_CALLS and any(kw.arg == 'copy' and isinstance(kw.value, ast.Constant) and kw.value.value is False for kw in e.keywords):
                 if isinstance(e.func, ast.Attribute) and not (isinstance(e.func.value, ast.Name) and e.func.value.id in ('np', 'numpy')):
@@ -116,19 +128,37 @@ class FnScan:
             self.writes.add((r, kind, node.lineno))
 
     def visit_calls(self, e, st):
+        # comprehension variables alias the elements they iterate over
+        for comp in ast.walk(e):
+            if isinstance(comp, (ast.ListComp, ast.SetComp, ast.GeneratorExp, ast.DictComp)):
+                for g in comp.generators: self.assign(g.target, self.roots(g.iter, st), st, e if hasattr(e, 'lineno') else comp)
+            if isinstance(comp, ast.NamedExpr) and isinstance(comp.target, ast.Name):
+                st[comp.target.id] = self.roots(comp.value, st)               # walrus alias
         for c in ast.walk(e):
             if not isinstance(c, ast.Call): continue
             n = _callname(c)
             fsrc = ast.unparse(c.func)
             if fsrc.startswith(('np.random.', 'numpy.random.')) :
                 if n in RNG_OK:
-                    if n == 'default_rng': self.seeded = self.seeded or ('seed' in self.params)
+                    if n == 'default_rng':
+                        self.seeded = self.seeded or ('seed' in self.params)
+                        # what is handed to the generator: must be the bare parameter `seed` for the result to be a function of it
+                        self.rng_args.append(ast.unparse(c.args[0]) if c.args else ', '.join(f'{k.arg}={ast.unparse(k.value)}' for k in c.keywords))
                 else: self.global_rng.add(n)
             for kw in c.keywords:
                 if kw.arg == 'out': self.w(self.roots(kw.value, st), 'out=', c)
             if fsrc.startswith(('np.', 'numpy.')):        # positional `out` of ufuncs / np.dot
-                k_out = 2 if n in BINARY_UFUNCS else 1 if n in UNARY_UFUNCS and n not in ('clip', 'round') else None
+                k_out = 2 if n in BINARY_UFUNCS else 3 if n == 'clip' else 2 if n in ('round', 'around') else 1 if n in UNARY_UFUNCS else None
                 if k_out is not None and len(c.args) > k_out: self.w(self.roots(c.args[k_out], st), 'positional out', c)
+            if n == 'at' and isinstance(c.func, ast.Attribute) and ast.unparse(c.func.value).startswith(('np.', 'numpy.')) and c.args:
+                self.w(self.roots(c.args[0], st), 'ufunc.at', c)
+            for kw in c.keywords:
+                if kw.arg == 'output': self.w(self.roots(kw.value, st), 'output=', c)
+            if isinstance(c.func, ast.Attribute) and not fsrc.startswith(('np.', 'numpy.')):
+                mk = {'clip': 2, 'round': 1, 'cumsum': 2, 'cumprod': 2, 'conj': None}.get(n)
+                if mk is not None and len(c.args) > mk: self.w(self.roots(c.args[mk], st), 'method positional out', c)
+            if isinstance(c.func, ast.Name) and n == 'setattr' and c.args:
+                self.w(self.roots(c.args[0], st), 'setattr()', c)
             if n in self.rng_imports or n == 'rvs' and not any(kw.arg == 'random_state' for kw in c.keywords):
                 self.global_rng.add(n)
             if n in WRITE_FUNCS and fsrc.startswith(('np.', 'numpy.')) and c.args:
@@ -237,7 +267,9 @@ class FnScan:
         return st
 
     def run(self):
-        self.block(self.node.body, copy.deepcopy(self.state0))
+        st0 = copy.deepcopy(self.state0)
+        for k, v in self.outer.items(): st0.setdefault(k, set(v))
+        self.final_state = self.block(self.node.body, st0)
         return self
 
 
@@ -255,10 +287,21 @@ def scan(repo):
             if isinstance(node, ast.FunctionDef):
                 if any('cache' in ast.unparse(d) for d in node.decorator_list):
                     caches.append(f'{m}.{node.name}'); cached_names.add(node.name)
-            if isinstance(node, ast.Assign) and isinstance(node.value, (ast.Dict, ast.List, ast.Set, ast.ListComp, ast.DictComp)):
+            def _mutable_value(v):
+                if isinstance(v, (ast.Dict, ast.List, ast.Set, ast.ListComp, ast.DictComp, ast.SetComp)): return True
+                if isinstance(v, ast.Call):
+                    fn_ = ast.unparse(v.func)
+                    return fn_.split('.')[-1] in ('dict', 'list', 'set', 'OrderedDict', 'defaultdict', 'deque', 'zeros', 'ones', 'empty', 'array', 'arange', 'full')
+                return False
+            if isinstance(node, ast.Assign) and _mutable_value(node.value):
                 for t in node.targets:
                     if isinstance(t, ast.Name) and t.id != '__all__':
                         module_state.append(f'{m}.{t.id}'); mut_by_mod[m].add(t.id)
+            if isinstance(node, ast.ClassDef):
+                for sub in node.body:          # class attributes holding containers/arrays are shared by all instances
+                    if isinstance(sub, ast.Assign) and _mutable_value(sub.value):
+                        for t in sub.targets:
+                            if isinstance(t, ast.Name): module_state.append(f'{m}.{node.name}.{t.id}'); mut_by_mod[m].add(node.name)
     FnScan.rng_imports = set()
     for m, tree in mods.items():
         for node in ast.walk(tree):
@@ -269,14 +312,20 @@ def scan(repo):
         scans = {}
         classes = {}
         for m, tree in mods.items():
-            def walk(body, prefix, cls):
+            def walk(body, prefix, cls, parent=None):
                 for node in body:
                     if isinstance(node, (ast.FunctionDef, ast.AsyncFunctionDef)):
                         q = f'{prefix}.{node.name}'
-                        sc = FnScan(m, q, node, cached_names, mut_by_mod[m], cls is not None).run()
+                        sc = FnScan(m, q, node, cached_names, mut_by_mod[m], cls is not None)
+                        if parent is not None: sc.outer = {k: v for k, v in parent.final_state.items() if v}
+                        sc.run()
                         sc.cls = cls
                         scans[q] = sc
-                        walk(node.body, q, None)
+                        if parent is not None:      # a closure writing a captured variable: the enclosing function may write it
+                            for (r, k, l) in sc.writes:
+                                if r in parent.params or r.startswith(('cache:', 'global:')): parent.writes.add((r, 'closure: ' + k, l))
+                            parent.global_rng |= sc.global_rng
+                        walk(node.body, q, None, sc)
                     elif isinstance(node, ast.ClassDef):
                         classes[node.name] = {'qual': f'{prefix}.{node.name}', 'bases': [ast.unparse(b).split('.')[-1] for b in node.bases]}
                         walk(node.body, f'{prefix}.{node.name}', node.name)
@@ -334,6 +383,18 @@ def scan(repo):
         if len(parts) >= 2 and parts[-2] in classes: return method(parts[-2], n)
         if n in classes: return method(n, '__init__')
         return [s for s in by_name.get(n, []) if s.qual.count('.') >= 2 and s.cls]     # some method of that name
+    for q, s in scans.items():
+        if 'seed' not in s.params: continue
+        for name, args, recv, cnode in s.calls:
+            for callee in resolve(s, cnode):
+                if 'seed' not in callee.params or callee is s: continue
+                ps = callee.params[1:] if callee.params[:1] in (['self'], ['cls']) else callee.params
+                k = ps.index('seed')
+                actual = None
+                if k < len(cnode.args): actual = ast.unparse(cnode.args[k])
+                for kw in cnode.keywords:
+                    if kw.arg == 'seed': actual = ast.unparse(kw.value)
+                s.seed_forward.append((callee.qual, actual if actual is not None else '<not passed>'))
     rows = {q: {'writes': {(r, k) for r, k, _ in s.writes}, 'rng': set(s.global_rng), 'seeded': s.seeded,
                 'captures': set(s.captures)} for q, s in scans.items()}
     changed = True
@@ -375,6 +436,7 @@ def scan(repo):
         rows[q]['public'] = all(not part.startswith('_') or (part.startswith('__') and part.endswith('__')) for part in q.split('.'))
         rows[q]['params'] = s.params
         rows[q]['sites'] = sorted(s.writes, key=lambda t: t[2])
+        rows[q]['rng_args'] = list(s.rng_args); rows[q]['seed_forward'] = sorted(set(s.seed_forward))
     return rows, sorted(caches), sorted(module_state)
 
 
@@ -394,6 +456,10 @@ structure EffRow where
   seeded : Bool
   cacheWrites : List String
   globalWrites : List String
+  /-- source text of the argument of each `np.random.default_rng(...)` call in the function -/
+  rngArgs : List String := []
+  /-- calls to functions that take a `seed`: (callee, source text of the argument bound to its `seed`) -/
+  seedForward : List (String × String) := []
 deriving Repr, DecidableEq
 ''']
     lines = []
@@ -406,14 +472,16 @@ deriving Repr, DecidableEq
             pw.setdefault(root, kind)
         cw = sorted({root[6:] for root, _ in r['writes'] if root.startswith('cache:')})
         gw = sorted({root[7:] for root, _ in r['writes'] if root.startswith('global:')})
-        interesting = pw or cw or gw or r['rng'] or r['seeded'] or r['captures'] or r['public']
+        interesting = pw or cw or gw or r['rng'] or r['seeded'] or r['captures'] or r['public'] or r['rng_args'] or r['seed_forward']
         if not interesting: continue
-        lines.append('  { fn := %s, pub := %s, writes := [%s], captures := [%s], globalRng := %s, seeded := %s, cacheWrites := [%s], globalWrites := [%s] }' % (
+        lines.append('  { fn := %s, pub := %s, writes := [%s], captures := [%s], globalRng := %s, seeded := %s, cacheWrites := [%s], globalWrites := [%s]%s }' % (
             _s(q), 'true' if r['public'] else 'false',
             ', '.join(f'({_s(k)}, {_s(v)})' for k, v in sorted(pw.items())),
             ', '.join(f'({_s(a)}, {_s(p)})' for a, p in sorted(r['captures'])),
             'true' if r['rng'] else 'false', 'true' if r['seeded'] else 'false',
-            ', '.join(_s(x) for x in cw), ', '.join(_s(x) for x in gw)))
+            ', '.join(_s(x) for x in cw), ', '.join(_s(x) for x in gw),
+            ((', rngArgs := [%s]' % ', '.join(_s(x) for x in r['rng_args'])) if r['rng_args'] else '') +
+            ((', seedForward := [%s]' % ', '.join(f'({_s(a)}, {_s(b)})' for a, b in r['seed_forward'])) if r['seed_forward'] else '')))
         if pw or cw or gw or r['rng']:
             notes.append(f"{q}: writes {sorted(pw)} cache {cw} globals {gw} rng {sorted(r['rng'])}")
     out.append('def effTable : List EffRow := [\n' + ',\n'.join(lines) + '\n]\n')
